@@ -11,7 +11,7 @@ git -C /repo worktree add -q --detach "$wt" HEAD || exit 3
 trap 'git -C /repo worktree remove --force "$wt" 2>/dev/null; rm -rf "$wt"' EXIT
 demo=$(ls "$d"/*_test.go 2>/dev/null | head -1)
 [ -z "$demo" ] && { echo "CONFIRM $(basename $d): no *_test.go demo (standalone program?) - confirm by hand"; exit 2; }
-pkg=$(grep -o -m1 -i 'copy \(it \)\?\(in\)\?to `\?[A-Za-z0-9/_.-]*' "$demo" | sed 's/.*to `\?//; s/`//g; s:/$::')
+pkg="${PKG:-}"; [ -z "$pkg" ] && pkg=$(grep -o -m1 -i 'copy \(it \)\?\(in\)\?to `\?[A-Za-z0-9/_.-]*' "$demo" | sed 's/.*to `\?//; s/`//g; s:/$::')
 [ -z "$pkg" ] && { echo "CONFIRM $(basename $d): cannot find the 'copy to <dir>' comment"; exit 2; }
 run=$(grep -o '^func Test[A-Za-z0-9_]*' "$demo" | sed 's/func //' | paste -sd'|')
 cd "$wt"
